@@ -334,7 +334,9 @@ GEN_FAMILIES = {
     "G1b": ("MC_Gen_G1b.cfg", 2000, None),
     "G1c": ("MC_Gen_G1c.cfg", None, None),
     "G2p_2": ("MC_Gen_G2p_2.cfg", None, None),
-    "G2p_3": ("MC_Gen_G2p_3.cfg", 0, 6000),
+    "G2p_3s": ("MC_Gen_G2p_3s.cfg", 700, 0),
+    "G2p_3": ("MC_Gen_G2p_3.cfg", 0, 8000),
+    "G2s": ("MC_Gen_G2s.cfg", 1200, None),
 }
 
 
@@ -360,7 +362,7 @@ def gen_pipeline(tier, seed):
         batch = fams[i:i + 2]
         ps = [(f, tlc_start(os.path.join(SPEC, "mc", "MC_Gen.tla"), os.path.join(SPEC, "mc", GEN_FAMILIES[f][0]),
                             os.path.join(wd, f"mc_{f}.out"), os.path.join(wd, f"md_{f}"), workers=8, xmx="12g")) for f in batch]
-        tlc_wait([p for _, p in ps], 3000)
+        tlc_wait([p for _, p in ps], 900 if tier == "quick" else 3000)
     acts = {}
     for f in fams:
         text = open(os.path.join(wd, f"mc_{f}.out")).read()
@@ -373,6 +375,8 @@ def gen_pipeline(tier, seed):
             design["c01_false"] += (not c["model"]["c01"]) and c["cf"]
             design["c02_false"] += not c["model"]["c02"]
             design["c03_false"] += not c["model"]["c03"]
+            design["c05_false"] = design.get("c05_false", 0) + (not c["model"]["c05"])
+            design["c17_false"] = design.get("c17_false", 0) + (not c["model"]["c17"])
             design["teq_unsound"] += not c["model"]["teq_sound"]
         lim = GEN_FAMILIES[f][1] if tier == "quick" else GEN_FAMILIES[f][2]
         if lim is not None and len(fc) > lim:
@@ -392,11 +396,17 @@ def gen_pipeline(tier, seed):
         if e["name"] == "ALL":
             continue
         cases.append({"fam": "corpus", "cf": False, "tog": False, "reg": e["reg"], "settings": base, "roots": [e["root"]],
-                      "model": {"res": "", "c01": True, "c02": True, "c03": True, "teq_sound": True}, "name": e["name"]})
+                      "model": {"res": "", "c01": True, "c02": True, "c03": True, "teq_sound": True}, "name": e["name"],
+                      "prog": {"defs": [], "cfgs": []}, "sroots": [], "perms": [], "retain": [0]})
     recs = []
     for i, c in enumerate(cases):
-        recs.append({"case": i, "fam": c["fam"], "cf": c["cf"], "tog": c["tog"], "model": c["model"],
-                     "runs": [{"reg": c["reg"], "settings": c["settings"], "dedup": True, "composites": False, "teq": [], "repeat": 0}]})
+        runs = [{"reg": c["reg"], "settings": c["settings"], "dedup": True, "composites": True, "teq": [], "repeat": 0, "retain": c["retain"]}]
+        if c["tog"]:
+            # C17: the permuted registries chosen by TLC are generated and de-duplicated as further runs of the case
+            for pm in c["perms"]:
+                runs.append({"reg": pm["reg"], "settings": c["settings"], "dedup": True, "composites": False, "teq": [], "repeat": 0})
+        recs.append({"case": i, "fam": c["fam"], "cf": c["cf"], "tog": c["tog"], "model": c["model"], "prog": c["prog"], "sroots": c["sroots"],
+                     "perms": [pm["pi"] for pm in c["perms"]], "runs": runs})
     write_ndjson(os.path.join(wd, "cases.ndjson"), recs)
     harness_run("gen", os.path.join(wd, "cases.ndjson"), os.path.join(wd, "obs.ndjson"), jobs=12)
     obs = read_ndjson(os.path.join(wd, "obs.ndjson"))
@@ -421,7 +431,8 @@ def gen_pipeline(tier, seed):
                          "failed": sorted(set(a["failed"]) | set(b["failed"])),
                          "known": [list(k) for k in a["known"]] + [list(k) for k in b["known"]],
                          "drift": a["drift"] or b["drift"], "gen": a["gen"], "dedup": b["dedup"], "gen2": b["gen2"],
-                         "renamed": b["renamed"], "family": a["family"], "outs": a["outs"]})
+                         "renamed": b["renamed"], "family": a["family"], "outs": a["outs"], "tog": r["tog"], "c05": a["c05"],
+                         "ncomp": a["ncomp"], "nruns": len(r["runs"])})
     # per-action counts: the visit events of the real code that were stepped through the Visit action (-coverage is
     # unusable on this specification: TLC's cost accounting on the recursive operators exhausts the heap)
     for v in verdicts:
@@ -520,6 +531,31 @@ def check_c03(tier, seed):
                          tier, seed, domain=lambda v: v["family"])
 
 
+def check_c05(tier, seed):
+    return check_genprop("C05", ["C05."], lambda v: v["c05"],
+                         GEN_RULE + "domain = coincidence-free programs with one definition per path and no associated-type projection; the expected item of every "
+                         "definition is derived from the source program alone (Source.tla: ExpectedItem) and compared with the projected real item; "
+                         "non-trivial = case in that domain whose generation succeeded",
+                         tier, seed)
+
+
+def check_c17(tier, seed):
+    return check_genprop("C17", ["C17."], lambda v: v["tog"] and v["nruns"] > 1,
+                         GEN_RULE + "for every case in the coincidence-free one-definition-per-path domain TLC emits two permutations of the registry (reverse, rotation) with consistent "
+                         "renumbering (Registry.tla: Permute); the crate generates and de-duplicates all of them: token fingerprints must be equal and the rename partitions must "
+                         "correspond under the permutation; scale-info's own retain() restricts the registry to the closure of one id and every retained path must yield the same item; "
+                         "non-trivial = case with permuted runs",
+                         tier, seed)
+
+
+def check_c18(tier, seed):
+    return check_genprop("C18", ["C18."], lambda v: v["ncomp"] > 0 and v["gen"] == "ok",
+                         GEN_RULE + "for every struct and every enum variant of every case the harness builds a standalone struct through create_composite_ir_kind + CompositeIR::new + "
+                         "upcast_composite and projects its tokens; TLC compares its field list with the enum's own variant in the generated module, evaluates Faithful on the payload and "
+                         "checks derives/attributes/docs; non-trivial = generation succeeded and at least one composite was built",
+                         tier, seed)
+
+
 def check_c04(tier, seed):
     return check_genprop("C04", ["C04."], lambda v: v["renamed"] > 0,
                          GEN_RULE + "every case also runs ensure_unique_type_paths twice and generation on the result; non-trivial = at least one path renamed",
@@ -601,9 +637,9 @@ def check_c10(tier, seed):
 # ------------------------------------------------------------------------------------------
 # C15 formatter
 
-def balanced_strings_from_sim(wd, seed, num, res):
+def balanced_strings_from_sim(wd, seed, num, res, cfg="GEN_C15.cfg"):
     """Long balanced strings: TLC simulation of the generator spec GEN_C15."""
-    out = tlc_run(os.path.join(SPEC, "mc", "GEN_C15.tla"), os.path.join(SPEC, "mc", "GEN_C15.cfg"),
+    out = tlc_run(os.path.join(SPEC, "mc", "GEN_C15.tla"), os.path.join(SPEC, "mc", cfg),
                   os.path.join(wd, "gen.out"), os.path.join(wd, "mdgen"), workers=1,
                   extra=("-simulate", f"num={num}", "-depth", "260", "-seed", str(seed)), timeout=600)
     strs = [tuple(r["s"]) for r in tlc_lines(out, "CASE ")]
@@ -626,6 +662,9 @@ def check_c15(tier, seed):
     rnd = random.Random(seed)
     rnd.shuffle(sim)
     sim = sim[: 1500 if tier == "quick" else 20000]
+    deep = balanced_strings_from_sim(wd, seed + 1, 60 if tier == "quick" else 600, res, cfg="GEN_C15_deep.cfg")
+    deep = sorted(deep, key=len, reverse=True)[: 300 if tier == "quick" else 4000]   # the deepest nests are the longest walks
+    sim += deep
     strings += sim
     # every description the crate itself produces for the corpus (C13 runs)
     subprocess.run([VH, "corpus", os.path.join(wd, "corpus.ndjson")], check=True)
@@ -673,7 +712,7 @@ def check_e0_cmd(tier, seed):
     return 0
 
 
-CHECKS = {"C15": check_c15, "E0": check_e0_cmd, "C01": check_c01, "C02": check_c02, "C03": check_c03, "C04": check_c04, "C10": check_c10}
+CHECKS = {"C15": check_c15, "E0": check_e0_cmd, "C01": check_c01, "C02": check_c02, "C03": check_c03, "C04": check_c04, "C10": check_c10, "C05": check_c05, "C17": check_c17, "C18": check_c18}
 
 
 def selfcheck():
